@@ -31,6 +31,22 @@ pub fn plan() -> Plan {
         quick_histories: 400,
         thorough_histories: 60000,
         s5: None,
+        enumerate_session_end: Some((12, 1500, {
+            let mut e = base_profile("c08-enumerated");
+            e.persistent_pm = 1000;
+            e.clients = (2, 4);
+            e.ops = (25, 60);
+            e.burst_pm = 60;
+            e.burst = (30, 140);
+            e.qos_weights = [2, 4, 2];
+            e.w.unsubscribe = 1;
+            e.w.subscribe = 10;
+            e.w.takeover = 0;
+            e.w.link_drop = 1;
+            e.w.disconnect_pkt = 1;
+            e.hostile = false;
+            e
+        })),
     }
 }
 
@@ -46,10 +62,10 @@ pub fn prop() -> Prop {
     Prop {
         id: "C08",
         meta: Meta {
-            level: "exploration",
+            level: "fault_enumeration",
             rule: "seeded histories in which most clients use persistent sessions and end them in every flavour (DISCONNECT, link drop, router-initiated close after a bad ack, take-over) at random points with forwarded-but-unacknowledged messages outstanding, others publishing meanwhile, 1-4 reconnect cycles with alternating clean flags; M-broker restarts each subscription's expected stream at its oldest unacknowledged QoS>0 element. A case counts as distinct and non-trivial when its sequence of operation kinds is new and it reached at least one named corner state.",
             assumptions: &["router stepped on one thread through verif hooks; link actors use the real LinkTx/LinkRx", "default segment sizes: backlog stays within retention"],
-            floors: &[("quiescent-point", 20), ("resume-session-present", 20)],
+            floors: &[("quiescent-point", 20), ("resume-session-present", 20), ("end-by-disconnect-packet", 50), ("end-by-link-failure", 50), ("end-by-router-close", 50), ("end-by-takeover", 50)],
         },
         run,
         replay: Some(replay),
